@@ -167,6 +167,10 @@ func parseDNSSL(d rawDNSSL, maxInterval time.Duration) (*plugin.DNSSL, error) {
 		return nil, fmt.Errorf("invalid lifetime: %v", err)
 	}
 
+	if err := checkLifetime(lifetime); err != nil {
+		return nil, err
+	}
+
 	if len(d.DomainNames) == 0 {
 		return nil, errors.New("must specify one or more DNS search domain names")
 	}
@@ -232,6 +236,12 @@ func parsePrefix(p rawPrefix, epoch time.Time) (*plugin.Prefix, error) {
 	// Use defaults for auto values.
 	if preferred == 0 {
 		return nil, errors.New("preferred lifetime must be non-zero")
+	}
+
+	for _, lt := range []time.Duration{valid, preferred} {
+		if err := checkLifetime(lt); err != nil {
+			return nil, err
+		}
 	}
 
 	// See: https://tools.ietf.org/html/rfc4861#section-4.6.2.
@@ -308,6 +318,10 @@ func parseRoute(r rawRoute, epoch time.Time) (*plugin.Route, error) {
 		return nil, errors.New("lifetime must be non-zero")
 	}
 
+	if err := checkLifetime(lt); err != nil {
+		return nil, err
+	}
+
 	// Deprecated routes cannot have an infinite lifetime.
 	if r.Deprecated && lt == ndp.Infinity {
 		return nil, errors.New("route is deprecated and cannot have an infinite lifetime")
@@ -333,6 +347,10 @@ func parseRDNSS(d rawRDNSS, maxInterval time.Duration) (*plugin.RDNSS, error) {
 	lifetime, err := parseDuration(d.Lifetime, 3*maxInterval)
 	if err != nil {
 		return nil, fmt.Errorf("invalid lifetime: %v", err)
+	}
+
+	if err := checkLifetime(lifetime); err != nil {
+		return nil, err
 	}
 
 	if len(d.Servers) == 0 {
@@ -399,6 +417,16 @@ func parseRDNSS(d rawRDNSS, maxInterval time.Duration) (*plugin.RDNSS, error) {
 		Lifetime: lifetime,
 		Servers:  ips,
 	}, nil
+}
+
+// checkLifetime verifies that a lifetime is not negative and does not exceed
+// ndp.Infinity, the largest value its 32-bit seconds field can carry.
+func checkLifetime(d time.Duration) error {
+	if d < 0 || d > ndp.Infinity {
+		return fmt.Errorf("lifetime %s must be between 0 and %s", d, ndp.Infinity)
+	}
+
+	return nil
 }
 
 // parseIPPrefix parses s an IPv6 prefix which may optionally be empty. It
